@@ -245,6 +245,8 @@ inline Problem<Real> draw_problem(Draw& d, int family, Index nmax)
             {
                 dm = std::min(dm, std::min(std::abs(l - s), std::abs(l - std::conj(s))));
                 dm = std::min(dm, std::abs(l - cld(sr, 0)));
+                if (sigi > 0)  // branch circle of the complex-shift transformation (see c02_gen.cpp)
+                    dm = std::min(dm, std::abs(std::abs(l - cld(sr, 0)) - sigi));
             }
             if (dm >= (ld) 0.01 * rad && sr != 0)
                 good.push_back(s);
